@@ -2,8 +2,8 @@
 import glob, hashlib, os, re
 
 LEAN_MODULE = "RemocModel.Props.C08"
-LEAN_EXES = ["table"]
-HARNESS_BINS = ["mux"]
+LEAN_EXES = ["table", "wire"]
+HARNESS_BINS = ["mux", "stream"]
 THEOREMS = [
     "Remoc.Table.buffer_bounded",
     "Remoc.Table.bufInv_run",
@@ -23,7 +23,9 @@ RULE = ("one real endpoint; the harness plays the peer and injects frames: a val
         "credit/without ports (flood), repeated ClientFinish, Goodbye); afterwards local API calls must all return. The model "
         "(handleRx/handleData/handleEvt) must take the same accept/terminate decision with the same error class at the same "
         "frame. Non-trivial: the trace reached a violating or terminating frame, or >= 3 ports/data frames were processed; "
-        "distinct = distinct op sequence.")
+        "distinct = distinct op sequence. Stream transports: a real Connect::io endpoint (chunk sizes 10..1024) receives, from a byte-level "
+        "peer, a frame of exactly chunk_size payload bytes (must be accepted, connection alive) or a length prefix one above "
+        "maxMsgLength + chunk_size (must end the connection instead of being buffered), judged with the model's unframe.")
 TRUSTED_BASE = [
     "M_table (lean/RemocModel/Table/Model.lean): hand-written total functions for handle_received_msg / handle_event / "
     "maybe_free_port; the data plane inside a port is M_link",
@@ -123,7 +125,37 @@ def run(ctx, replay=None):
                       "replay-mismatch",
                       "# correspondence M_table <-> chmux dispatcher broken\n%s\n# --- driver output ---\n# %s\n# --- trace ---\n# %s"
                       % ("".join(script), "\n# ".join(detail), "# ".join(tl)), name="correspondence-M_table.txt", no_input=True)
+    # ---- stream transports: a real `Connect::io` endpoint must refuse a frame whose length prefix exceeds
+    # maxMsgLength + chunk_size (it must not buffer it) and accept one of exactly chunk_size payload bytes
+    stream_cases = 0
+    if not replay:
+        n3 = 60 if quick else 1500
+        rc3, err3, trace3 = ctx.harness("stream", [n3], out_path=os.path.join(ctx.workdir, "stream.trace"), seed=ctx.seed * 1000 + 960)
+        if rc3 != 0:
+            ctx.violation("stream harness crashed", "stream-harness-crash", err3[-3000:], name="stream-crash.txt", no_input=True)
+        else:
+            rc3, lines3 = ctx.driver("wire", trace3)
+            with open(trace3) as f:
+                stream_cases = sum(1 for l in f if l.startswith("sframe "))
+            for d in [l for l in lines3 if l.startswith("DIFF") and ("was accepted although the limit" in l or "ended the connection" in l)][:5]:
+                tname = re.search(r"(stream-\d+)", d)
+                case = ""
+                if tname:
+                    with open(trace3) as f:
+                        on = False
+                        for line in f:
+                            if line.startswith("trace "):
+                                on = line.split()[1] == tname.group(1)
+                            if on:
+                                case += line
+                what = d.split(":", 2)[-1].strip()
+                ctx.violation("c08 fails on a real Connect::io endpoint: " + what, "c08 stream " + re.sub(r"\d+", "#", what)[:120],
+                              "# a real Connect::io endpoint fed by a byte-level peer (sbytes = what the endpoint wrote, enc/frm = what the peer wrote);\n"
+                              "# the model's unframe(maxMsgLength + chunk_size) refuses the frame announced in the `sframe` line\n# %s\n%s" % (d, case))
+            total += stream_cases
+            nontrivial += stream_cases
     ctx.coverage.update({
+        "stream_frame_limit_cases": stream_cases,
         "evaluations": total,
         "distinct_nontrivial": nontrivial,
         "traces_validated_against_impl": total,
